@@ -242,6 +242,7 @@ type Exec struct {
 	curEnv    *SpecEnv
 	pendingFn *Term
 	pendingSelf *tv
+	pendingLocals func(name string) (tv, bool)
 	constGlobals []string
 	usedAxioms map[string]bool
 	unfolded map[string]bool // opaque spec function applications whose defining equation was emitted
